@@ -4,6 +4,7 @@ import (
 	"fmt"
 	"go/types"
 	"os"
+	"os/exec"
 	"path/filepath"
 	"runtime/debug"
 	"sort"
@@ -304,6 +305,9 @@ type Sched struct {
 	timedOut     bool
 	deadline     time.Time
 	budget       time.Duration
+	cross        bool
+	crossMax, crossDone, crossAgree, crossDisagree, crossUnknown int
+	crossNote    string
 }
 
 func (s *Sched) isClosed() bool {
@@ -521,7 +525,9 @@ func (wk *Worker) runItem(it WorkItem) {
 	r.EndCounts[pr.End]++
 	nfail := 0
 	for _, f := range pr.Failures {
-		if f.Known == "" {
+		// counterexamples from paths that used the hash summary may not survive the concrete
+		// re-run with the real hash: they do not count towards the early stop
+		if f.Known == "" && f.Tape != nil && !f.Tape.Summarised {
 			nfail++
 		}
 	}
@@ -847,6 +853,35 @@ func (ex *Exec) checkViolation(extra ...*Term) (Result, *Tape) {
 			return Unsat, nil
 		}
 	}
+	// Prefer a counterexample that does not rely on a collision of the summarised hash (equal hash
+	// values only for equal arguments): such a model also behaves the same with the real hash.
+	if len(ex.apps) > 1 && len(ex.apps) <= 120 && !ex.noInj {
+		inj := ex.ts.tTrue
+		seen := map[*Term]bool{}
+		var uniq []*Term
+		for _, a := range ex.apps {
+			if !seen[a] && a.op == OpApply {
+				seen[a] = true
+				uniq = append(uniq, a)
+			}
+		}
+		for i := 0; i < len(uniq); i++ {
+			for j := i + 1; j < len(uniq); j++ {
+				if uniq[i].name != uniq[j].name {
+					continue
+				}
+				inj = ex.ts.BAnd(inj, ex.ts.BOr(ex.ts.Ne(uniq[i], uniq[j]), ex.ts.Eq(uniq[i].a, uniq[j].a)))
+			}
+		}
+		if !inj.IsTrue() {
+			ex.noInj = true
+			r, tp := ex.checkViolation(append(append([]*Term{}, extra...), inj)...)
+			ex.noInj = false
+			if r == Sat {
+				return r, tp
+			}
+		}
+	}
 	terms := ex.tapeTerms()
 	for _, t := range terms {
 		ex.sv.declare(t)
@@ -938,6 +973,7 @@ func (ex *Exec) vfAssert(id string, c *Term, kf string, inClass *Term) {
 			}
 		default:
 			ex.path.Discharged++
+			ex.crossCheck(nc)
 		}
 	}
 	if c.IsFalse() || !ex.feasible(c) {
@@ -1024,5 +1060,44 @@ func debugDiff(a, b *Term, depth int) {
 		if ka[i] != kb[i] && ka[i] != nil && kb[i] != nil {
 			debugDiff(ka[i], kb[i], depth+1)
 		}
+	}
+}
+
+// crossCheck (thorough tier): re-decides a discharged obligation with z3 4.8.12 and cvc5 in fresh
+// processes; a solver that answers sat where the primary said unsat is an engine-level alarm.
+func (ex *Exec) crossCheck(negated *Term) {
+	if ex.sched == nil || !ex.sched.cross {
+		return
+	}
+	ex.sched.mu.Lock()
+	if ex.sched.crossDone >= ex.sched.crossMax {
+		ex.sched.mu.Unlock()
+		return
+	}
+	ex.sched.crossDone++
+	n := ex.sched.crossDone
+	ex.sched.mu.Unlock()
+	path := fmt.Sprintf("%s/cross_%d.smt2", workDir(), n)
+	f, err := os.Create(path)
+	if err != nil {
+		return
+	}
+	ex.ts.DumpStandalone(f, append(append([]*Term{}, ex.pc...), negated))
+	f.Close()
+	defer os.Remove(path)
+	for _, cmd := range [][]string{{"z3", "-T:60", path}, {"cvc5", "--tlimit=60000", path}} {
+		out, _ := exec.Command(cmd[0], cmd[1:]...).Output()
+		ans := strings.TrimSpace(strings.SplitN(string(out), "\n", 2)[0])
+		ex.sched.mu.Lock()
+		switch ans {
+		case "unsat":
+			ex.sched.crossAgree++
+		case "sat":
+			ex.sched.crossDisagree++
+			ex.sched.crossNote = fmt.Sprintf("%s answers sat on an obligation z3 5.1.0 decided unsat (job %s)", cmd[0], ex.job.ID)
+		default:
+			ex.sched.crossUnknown++
+		}
+		ex.sched.mu.Unlock()
 	}
 }
